@@ -102,6 +102,14 @@ macro_rules! as_ref_impl {
     };
 }
 
+pub const fn cap_500(x: i32) -> i32 {
+    if x > 500 {
+        500
+    } else {
+        x
+    }
+}
+
 macro_rules! chain_decls {
     (
         list = $list:ident, with = $with:ident, surface = $surface:ident;
@@ -319,6 +327,21 @@ fn float_text(rng: &mut Rng, lo: f64, hi: f64) -> String {
 
 chain_decls! {
     list = CHAIN_BASE, with = with_chain_base, surface = _assert_surface_base;
+    // `new_unchecked` and `const_fn` opted in: every safe entry point still goes through the guards
+    #[nutype(new_unchecked, sanitize(trim, uppercase), validate(not_empty, len_char_max = 10), default = " ok ",
+        derive(Debug, Clone, PartialEq, Display, FromStr, TryFrom, Into, AsRef, Deref, Serialize, Deserialize, Default, Arbitrary))]
+    struct UncheckedUpper(String);
+    family = "string"; validated = true; arbitrary = true; default = true;
+    gen = |r| gen_string(r, 8);
+    text = |r| gen_string(r, 8);
+
+    #[nutype(new_unchecked, const_fn, sanitize(with = cap_500), validate(greater_or_equal = -500, less_or_equal = 500),
+        derive(Debug, Clone, Copy, PartialEq, Display, FromStr, TryFrom, Into, AsRef, Deref, Serialize, Deserialize))]
+    struct UncheckedCapI32(i32);
+    family = "integer"; validated = true; arbitrary = false; default = false;
+    gen = |r| gen_int(r, -510, 510, i32::MIN as i128, i32::MAX as i128) as i32;
+    text = |r| num_text(r, -510, 510);
+
     // ------------------------------------------------------------------ strings: every order of {trim, lowercase|uppercase}
     #[nutype(sanitize(trim, lowercase), validate(not_empty, len_char_max = 12), default = "x",
         derive(Debug, Clone, PartialEq, Display, FromStr, TryFrom, Into, AsRef, Deref, Serialize, Deserialize, Default, Arbitrary))]
